@@ -7,13 +7,13 @@ ALL = ["C%02d" % i for i in range(1, 21)]
 CHECKS = {
  "C02": dict(cat="exploration", technique="reference-model monitor over API histories (small-scope exhaustive + seeded random), differential TopicMatch",
    text="Every lookup kind of subscription.Store (mem and redis wrapper) is compared with a reference table + MQTT 4.7 matcher after every operation of exhaustively enumerated short histories and seeded random long histories; TopicMatch is compared on all valid pairs of a topic universe. Decides the executions produced, not all histories.",
-   note="trusted: refmodel.Match/SubTable (written from MQTT 4.7), fakeredis for the redis wrapper; single-threaded use (concurrency is C15)", ref="§5 C02"),
+   note="trusted: refmodel.Match/SubTable (written from MQTT 4.7), fakeredis for the redis wrapper; single-threaded histories plus concurrent read-only lookups (DESIGN §9.2)", ref="§5 C02"),
  "C01": dict(cat="exploration", technique="wire-level trace monitor vs reference delivery model; concurrent publishers; sentinel barriers",
    text="Generated multi-client scenarios are executed against a real in-process broker over TCP with an independent MQTT codec; every PUBLISH received by every subscriber (copies, QoS, RETAIN, subscription ids, properties, order per publisher, DUP, packet id) and every ack to every publisher is compared with a reference model of MQTT matching and of the two delivery modes. Holds on the executions produced (hundreds to thousands of scenarios, concurrent publishers, injected hook delays), not for all schedules.",
-   note="trusted: mqttx codec, refmodel.Match, FIFO of TCP/queue for the sentinel barrier; drop conditions excluded by configuration", ref="§5 C01"),
+   note="trusted: mqttx codec, refmodel.Match, FIFO of TCP/queue for the sentinel barrier; drop conditions excluded by configuration; publishers also use topic aliases and burst-and-close connections", ref="§5 C01"),
  "C07": dict(cat="exploration", technique="reference-model monitor over store histories (exhaustive small scope + random) and wire-level replay monitor",
    text="(a) retained.Store compared with a map model after every operation of exhaustively enumerated short histories and random long ones (all topic/filter lookups, Iterate, copy semantics); (b) wire scenarios check what a SUBSCRIBE replays (Retain Handling, RAP, QoS downgrade, shared, v3/v5, re-subscription).",
-   note="trusted: refmodel.Match, mqttx; sentinel barrier for completeness of replay", ref="§5 C07"),
+   note="trusted: refmodel.Match, mqttx; sentinel barrier for completeness of replay; plus races of retained PUBLISH vs SUBSCRIBE over a slow retained store (WithRetainedStore)", ref="§5 C07"),
  "C10": dict(cat="exploration", technique="validating reference model over seeded API histories with conservation ledger and final drain",
    text="Seeded histories of Add/Read/ReadInflight/Remove/Replace/Init/Close on the memory and redis queue are validated step by step: bound, FIFO, id assignment, expired/oversize never returned, replay after Init, documented drop priority (any member of the demanded class accepted), counters = true contents, every message in exactly one ledger state, blocked Read released by Close/Add.",
    note="trusted: the model (written from the statement and the interface comment), fakeredis; expiry via +-1h offsets, no wall-clock verdicts", ref="§5 C10"),
@@ -28,7 +28,7 @@ CHECKS = {
    note="trusted: mqttx, refmodel.Match; copies destined to a member whose session ended while it was offline are unobservable and excluded; expiry-based leaving is covered only in thorough", ref="§5 C11"),
  "C13": dict(cat="exploration", technique="wire-level limit monitors (packet size, alias table, quota) over all validator-accepted configurations",
    text="For every validator-accepted combination of the four limits (thorough: all 225) scripted v5 clients exercise the advertised Topic Alias Maximum, Receive Maximum and Maximum Packet Size exactly at and just beyond the limit (0x94/0x93/0x95 expected beyond, survival expected within), and a subscriber declaring its own maxima checks the wire size and alias use of every packet it receives, resolving aliases with the spec's table; recovered broker panics are read from OnClosed.",
-   note="trusted: mqttx sizes; messages that fit only when aliased may be delivered or dropped; known finding: +3 bytes alias property after the size check", ref="§5 C13"),
+   note="trusted: mqttx sizes; messages that fit only when aliased may be delivered or dropped; also: outbound limits of a resumed session (DESIGN §9.2)", ref="§5 C13"),
  "C18": dict(cat="exploration", technique="differential wire monitor: same MQTT byte stream under many WebSocket segmentations vs expected dialogue (cross-checked over TCP)",
    text="A reference client byte stream is cut into WebSocket binary messages in every fixed chunk size 1..2100, every single cut position of a 3 KB stream, random cuts around the reader's 1024-byte buffer, packed and empty messages; the broker's replies (frame types, CONNACK, SUBACK, PUBACK ids, checksums of echoed payloads, PINGRESP) must be those of the unsegmented stream; text frames must be rejected without effect on broker state.",
    note="trusted: gorilla/websocket client, mqttx", ref="§5 C18"),
@@ -40,31 +40,31 @@ CHECKS = {
    note="trusted: stdlib md5/sha256, x/crypto bcrypt, mqttx; CONNECT with an Authentication Method may be refused (only acceptance without valid credentials is a violation)", ref="§5 C19"),
  "C20": dict(cat="exploration", technique="conservation monitor: broker statistics vs the scripted clients' wire log at logically reached quiescent points, plus gauge poller",
    text="Seeded multi-client scenarios (all packet types incl. AUTH, QoS 0-2, exactly known drops of three kinds, reconnects, take-overs, terminations) are run against a real broker; at quiescence every per-client and global packet/byte counter, per-QoS message and drop counter, queued/in-flight gauge and connection/session counter is compared with ground truth derived from the clients' own packet logs and the scenario; globals are compared with the sum of the per-client values; gauges are sampled every 100 us for wrap below zero.",
-   note="trusted: mqttx sizes; quiescence via sentinel+PINGREQ barriers; 'sent' counters of displaced connections compared with >=; transient gauge states shorter than the sampling period can be missed", ref="§5 C20"),
+   note="trusted: mqttx sizes; quiescence via sentinel+PINGREQ barriers; 'sent' counters of displaced connections compared with >=; transient gauge states shorter than the sampling period can be missed; includes sessions restored at start-up (redis) and directed session-gauge scenarios", ref="§5 C20"),
  "C08": dict(cat="exploration", technique="timed wire-level monitor (independent subscriber + hook timestamps) over the cross product of will settings, connection endings and re-attachments",
    text="For every combination of will settings, way of ending the connection, session expiry and re-attachment timing, an independent Retain-As-Published QoS2 subscriber, the retained store and the OnClosed timestamp decide whether, when (outside a 400 ms margin, within delay+5 s), how often and with which content the will was published.",
-   note="real time; timing verdicts must recur; session end by the 20 s expiry ticker is not exercised", ref="§5 C08"),
+   note="real time; timing verdicts must recur; lateness is inconclusive when the harness' own timers were late (jitter probe); includes a store refusal while the session ends", ref="§5 C08"),
  "C12": dict(cat="exploration", technique="timed wire-level monitor with measured waiting intervals and margins",
    text="Messages with and without expiry from v5/v3/API publishers wait in the broker (subscriber online, offline, or slow) for times chosen well on either side of min(expiry, configured maximum); delivery vs drop+OnMsgDropped(expired) and the forwarded Message Expiry Interval are checked against the measured waiting interval.",
    note="real time, 400 ms margins, cases inside the margin are inconclusive, verdicts must recur", ref="§5 C12"),
  "C05": dict(cat="exploration", technique="timed wire-level session model + take-over storms under the Go race detector with injected delays at lock hand-over points",
    text="(a) lifecycle histories (expiry values, connection durations longer than the expiry, DISCONNECT with new expiry, abrupt close, TerminateSession, take-over) judged by a session model from measured times with margins: Session Present, CONNACK expiry, subscriptions and queued messages; (b) thousands of storms of simultaneous CONNECTs with one client id on new/offline/online sessions: exactly one socket stays attached, hook log never shows two attached connections, GetClient is the survivor, nothing reaches displaced sockets; plus the deterministic take-over of a stuck consumer.",
-   note="built with -race and -tags verif (yield hooks); real time with 400 ms margins for (a); race reports from gmqtt code fail the check", ref="§5 C05"),
+   note="built with -race and -tags verif (yield hooks); real time with 400 ms margins for (a); race reports from gmqtt code fail the check; includes broker restarts on redis and a refused queue clean-up at session end", ref="§5 C05"),
  "C09": dict(cat="fault_enumeration", technique="crash-point enumeration over the journal of an in-process redis stand-in; recovery checked by restarting a real broker on every prefix",
    text="A real broker on the redis back end executes generated client histories step by step against fakeredis, which journals every state-changing command; for every prefix of the journal (thorough) a fresh broker is started on the replayed state and must start, know every acknowledged session, have exactly the acknowledged subscriptions with their options, redeliver every publisher-acknowledged and subscriber-unacknowledged QoS>0 message and still recognise QoS2 ids awaiting PUBREL; operations in flight at the crash point may be either way.",
    note="trusted: fakeredis (passes gmqtt's redis store suites), mqttx; single redis commands are atomic; redis-internal durability is out of scope", ref="§5 C09"),
  "C15": dict(cat="exploration", technique="Go race detector + panic/deadlock/termination monitors over chaos workloads with schedule perturbation; porcupine linearizability of recorded store histories",
    text="Chaos runs (20-60 clients incl. shared client ids, slow consumers, half-open and refused connections, 4 API goroutines, wills, expiries, Stop under traffic, GOMAXPROCS 1/2/4/16, seeded delays at lock hand-over points) under the race detector; monitors: race log filtered to gmqtt frames, recovered/fatal panics, 30 s request watchdog with goroutine dumps, Stop result and duration, listeners closed, sockets at EOF, plugin Load/Unload/OnStop exactly once, no broker goroutine left after 10 s; recorded concurrent histories of the retained and subscription stores checked with porcupine.",
-   note="the race detector only sees schedules produced; goroutines attributed by function name with one broker per process at a time; known finding: Stop does not close not-yet-registered connections", ref="§5 C15"),
+   note="the race detector only sees schedules produced; goroutines attributed by function name with one broker per process at a time; recovered panics of connection goroutines are seen through a verif hook; chaos runs on redis with refused commands are judged for races, crashes and termination only (DESIGN §9.6)", ref="§5 C15"),
  "C06": dict(cat="exploration", technique="differential codec monitor (independent mqttx codec), structure-aware + mutation + random + length-bomb generators, framing/allocation/hang monitors, exhaustive string predicates",
    text="Millions of generated inputs (well-formed packets of all 15 types and 3 versions with every property, byte-level mutations, raw bytes, tiny inputs declaring huge lengths) are fed to gmqtt's decoder under recover, a 10 s hang watchdog, a counting reader with a trailer packet (framing) and a TotalAlloc monitor (allocation bound); accepted packets are re-encoded and re-decoded; well-formed values are cross-encoded/decoded with an independent codec; reported sizes are compared with encoded lengths; validity predicates are compared exhaustively on all strings up to length 6 over a hostile alphabet.",
-   note="trusted: mqttx (written from the OASIS specs, own test-suite); leniency outside the explicit malformed classes is counted, not judged; 20 low-severity codec findings are listed as known", ref="§5 C06"),
+   note="trusted: mqttx (written from the OASIS specs, own test-suite); leniency outside the explicit malformed classes is counted, not judged; also: packets kept while the Reader reads on, encodings after a broken write", ref="§5 C06"),
  "C16": dict(cat="exploration", technique="ordering / exactly-once monitor over an applied-event trace (hook after duplicate suppression) under scripted stream faults from a TCP fault proxy",
    text="Pairs of real nodes federated through serf and gRPC on loopback; the emitter's stream crosses a proxy that cuts all connections, cuts after n more bytes in either direction (thorough: every offset 1..600 of a re-established stream), black-holes traffic and cuts again during the resend; the receiver's applied-event trace must contain every emitted subscribe/unsubscribe/message event exactly once in emission order within 15 s after the last fault, views must converge, forwarded messages reach the subscriber once; node replacement exercises the full resynchronisation.",
-   note="needs the verif hooks of plugin/federation; bounded progress 15 s; serf membership trusted", ref="§5 C16"),
+   note="needs the verif hooks of plugin/federation; bounded progress 15 s; serf membership trusted; views are compared with the subscription store (ground truth); includes lost acknowledgements before a resume and resynchronisation under churn", ref="§5 C16"),
  "C17": dict(cat="exploration", technique="routing monitor over applied-event traces of three federated nodes + wire-level conservation of copies (subscription identifiers)",
    text="Generated subscription distributions over three real federated nodes (plain, wildcard, $-topics, share groups spanning nodes) and unique publishes from any node: forwarded once to exactly the nodes with a matching non-shared subscription, never to nodes without a match, never back or onward; every matching non-shared subscriber gets one copy at min QoS; exactly one member per share group in the federation; retained messages reach and update (or clear) every node's retained store.",
-   note="views converged before publishing (logical barrier); per-peer streams FIFO; known findings: share-group handling in sendMessage", ref="§5 C17"),
+   note="views converged before publishing (logical barrier, against the subscription store); per-peer streams FIFO; known findings: share-group handling in sendMessage (signatures carry what each mechanism needs); includes will messages, a store refusal at session end and replaced sessions", ref="§5 C17"),
 }
 
 def main():
